@@ -15,4 +15,10 @@ claim('C10', 'model_checking', 'tlc-emit-replay', 'TLA+ spec NixVersion + TLC (e
       'nix::FormatVersion. Exhaustive inside the cube, which is the quantifier the property names.',
       'Trusted: TLC, the harness (h_version.cpp), HDF5 C API for rewriting the version attribute. Triples outside the cube and the '
       '27 extreme combinations are not explored.', 'DESIGN.md section 5 (C10)')
+claim('C07', 'model_checking', 'tlc-emit-replay', 'TLA+ spec NixAxis + TLC (exhaustive case table) + one implementation test per case per concrete axis',
+      'The matching rules are stated in NixAxis.tla on order-abstracted axes; TLC enumerates every (kind, window, position code, rule) and '
+      '(start, end, mode) case and checks RoundTrip/Between/Monotone/PairExact on each; every case is executed on a dictionary of concrete '
+      'axes with positions on, one ulp beside, between and beyond coordinates (oracle re-derived from exact comparisons of doubles).',
+      'Trusted: TLC, harness/axes.hpp (coordinates computed as double(i)*interval+offset and cross-checked with positionAt/tickAt). '
+      'Concrete intervals/offsets/ticks are a finite dictionary; window n<=3 (quick) / 5 (thorough).', 'DESIGN.md section 5 (C07)')
 ENGINES[0]['serves_properties'] = sorted(CLAIMED)
